@@ -108,7 +108,81 @@ func TestVerifStoreRace(t *testing.T) {
 		t.Fail()
 		return
 	}
-	fmt.Printf("storerace ok rounds=%d\n", done+done2+done3)
+	// fourth phase: a read of an expired, unswept entry against its re-write with a fresh TTL (whole cache)
+	done4 := vGetRewriteRace(t, rounds/4)
+	if done4 < 0 {
+		t.Fail()
+		return
+	}
+	fmt.Printf("storerace ok rounds=%d\n", done+done2+done3+done4)
+}
+
+// vGetRewriteRace: key k holds an entry whose TTL has elapsed and which no sweep has taken yet.  One goroutine reads k,
+// another re-writes it with a one-hour TTL, both started within nanoseconds.  Whatever the interleaving, the re-written
+// value (acknowledged, room to spare, never deleted) is served afterwards: the old TTL must not take the new item with it.
+func vGetRewriteRace(t *testing.T, rounds int) int {
+	c, err := NewCache(&Config[uint64, uint64]{NumCounters: 1 << 10, MaxCost: 1 << 30, BufferItems: 64, IgnoreInternalCost: true})
+	if err != nil {
+		t.Fatal(err)
+	}
+	defer c.Close()
+	var round atomic.Int64
+	doneA := make(chan struct{})
+	doneB := make(chan struct{})
+	stop := int64(rounds + 1)
+	wait := func(k int64) bool {
+		for {
+			r := round.Load()
+			if r == k {
+				return true
+			}
+			if r == stop {
+				return false
+			}
+		}
+	}
+	var accepted bool
+	go func() {
+		for k := int64(1); k <= int64(rounds); k++ {
+			if !wait(k) {
+				return
+			}
+			c.Get(uint64(k%97 + 1))
+			doneA <- struct{}{}
+		}
+	}()
+	go func() {
+		for k := int64(1); k <= int64(rounds); k++ {
+			if !wait(k) {
+				return
+			}
+			for i := 0; i < int(k%5)*15; i++ { // vary the offset against the reader
+				_ = round.Load()
+			}
+			accepted = c.SetWithTTL(uint64(k%97+1), uint64(2*k+2), 1, time.Hour)
+			doneB <- struct{}{}
+		}
+	}()
+	for k := int64(1); k <= int64(rounds); k++ {
+		key := uint64(k%97 + 1)
+		c.Del(key)
+		c.Wait()
+		if !c.SetWithTTL(key, uint64(2*k+1), 1, time.Nanosecond) {
+			continue
+		}
+		c.Wait() // applied: the entry is in the map, already past its TTL
+		round.Store(k)
+		<-doneA
+		<-doneB
+		c.Wait()
+		if v, ok := c.Get(key); accepted && (!ok || v != uint64(2*k+2)) {
+			fmt.Printf("stress sweeprace: round %d: key %d was re-written (value %d, one-hour TTL, Set returned true) over an entry whose TTL had elapsed while another goroutine read the key; afterwards Get returns (%d, %v)\n", k, key, 2*k+2, v, ok)
+			round.Store(stop)
+			return -1
+		}
+	}
+	round.Store(stop)
+	return rounds
 }
 
 // vMaxCostRace: Add re-reads MaxCost on every turn of its eviction loop; UpdateMaxCost may lower it below the cost of
